@@ -668,6 +668,27 @@ def ob_function_forms(Ne, nPg, dim):
         if np.shape(got) != want.shape or not np.array_equal(np.asarray(got), want):
             raise Refuted(f"{what} (Ne={Ne}, nPg={nPg}, dim={dim}): the mask is not applied point by point (max difference "
                           f"{np.abs(np.asarray(got) - want).max() if np.shape(got) == want.shape else 'shape'})", cex=dict(Ne=Ne, nPg=nPg, dim=dim, call=what), signature="function:where:value", replay=dict(confirmed=True))
+    # explicit axes are the caller's statement of which axes are multiplied: numpy's own meaning, not the rank rule
+    A_, B_ = fld(dim, dim), fld(dim, dim)
+    try:
+        got = np.matmul(A_, B_, axes=[(-1, -2), (-2, -1), (-2, -1)])
+    except Exception as ex:
+        raise Refuted(f"np.matmul(A, B, axes=[(-1,-2),(-2,-1),(-2,-1)]) on matrix fields raises {type(ex).__name__}: {ex}", signature="function:matmul:axes:raises", replay=dict(confirmed=True))
+    want = np.einsum("epji,epjk->epik", np.asarray(A_), np.asarray(B_))
+    n += 1
+    if np.shape(got) != want.shape or not np.allclose(np.asarray(got), want, rtol=1e-12, atol=1e-12):
+        raise Refuted(f"np.matmul(A, B, axes=[(-1,-2),(-2,-1),(-2,-1)]) on matrix fields (Ne={Ne}, nPg={nPg}, dim={dim}) is not A^T B at every point: the axes argument is ignored "
+                      f"(max difference {np.abs(np.asarray(got) - want).max() if np.shape(got) == want.shape else 'shape'})", cex=dict(Ne=Ne, nPg=nPg, dim=dim), signature="function:matmul:axes", replay=dict(confirmed=True))
+    for what, f in (("M.ravel('F')", lambda: M_r.ravel("F")), ("M.ravel()", lambda: M_r.ravel())):
+        M_r = fld(dim)
+        try:
+            got = f()
+        except Exception as ex:
+            raise Refuted(f"{what} on a vector field raises {type(ex).__name__}: {ex}", cex=dict(call=what), signature="function:ravel:raises", replay=dict(confirmed=True))
+        n += 1
+        ref = np.asarray(M_r).ravel("F" if "F" in what else "C")
+        if isinstance(got, FeArray) or not np.array_equal(np.asarray(got), ref):
+            raise Refuted(f"{what} on a vector field returns {type(got).__name__} {np.shape(got)}", signature="function:ravel:value", replay=dict(confirmed=True))
     # a field given as `out=` takes part in the alignment: a scalar field written into a matrix-field buffer fills every component of the tensor at (e, p)
     buf = FeArray.asfearray(np.full((Ne, nPg, dim, dim), -7.0))
     try:
